@@ -8,8 +8,8 @@ impl<T, M> Iterator for Wrapped<T, M> { type Item = T; fn next(&mut self) -> Opt
 fn main() {
     let col: Vec<String> = vec![String::from("a"), String::from("b"), String::from("c")];
     let it = col.into_con_iter();
-    let mut b = it.buffered_iter(2);
     let r = it.next();
-    let k1 = b.next();
-    if let Some(x) = k1 { let _n = x.values.count(); }
+    if let Some(x) = r { let _y = x.clone(); }
+    let r = it.next();
+    if let Some(x) = r { let _y = x.clone(); }
 }
